@@ -54,6 +54,8 @@ KMAX = {'line': 65, 'before_put': 7, 'after_put': 7, 'queue_put': 5,
 QUEUE_KINDS = {'raise_conn': 'ConnectionResetError',
                'raise_pipe': 'BrokenPipeError', 'raise_eof': 'EOFError',
                'raise_os': 'OSError'}
+# input that cannot be searched: the fault is in the data, nothing is injected
+DATA_KINDS = ('bad_utf8', 'bad_gzip_crc', 'gzip_junk')
 CLASSES = {'FileSearchException': 'E_FSE', 'UnicodeDecodeError': 'E_UDE',
            'BrokenProcessPool': 'E_BPP'}
 OK_CLASSES = ('FileSearchException', 'UnicodeDecodeError')
@@ -118,6 +120,22 @@ def plans(chk):
     # a single worker is still a separate process
     out.append(mkplan(rng, 'line', 'exit', 3, 1))
     out.append(mkplan(rng, 'before_sync', 'raise', 3, 1))
+    # a task failing with an exception OBJECT that cannot be pickled
+    out.append(mkplan(rng, 'line', 'raise_unpicklable', 3, 2))
+    out.append(mkplan(rng, 'before_put', 'raise_local', 2, 2))
+    # a gzip file with a valid header whose stream is damaged further on
+    # (wrong CRC in the trailer / junk after the member): the failure comes
+    # from the reader, at the end of the file
+    out.append(mkplan(rng, 'line', 'bad_gzip_crc', 3, 2))
+    out.append(mkplan(rng, 'line', 'gzip_junk', 2, 2,
+                      decode_errors='backslashreplace'))
+    if not chk.quick:
+        out.append(mkplan(rng, 'line', 'bad_gzip_crc', 4, 1,
+                          decode_errors='ignore'))
+        out.append(mkplan(rng, 'line', 'gzip_junk', 5, 3))
+        out.append(mkplan(rng, 'sync_inside_lock', 'raise_unpicklable', 4,
+                          3))
+        out.append(mkplan(rng, 'queue_put', 'raise_local', 3, 2))
     # undecodable input and injected UnicodeDecodeError
     out.append(mkplan(rng, 'line', 'raise_ude', 3, 2))
     out.append(mkplan(rng, 'sync_inside_lock', 'raise_ude', 3, 2))
@@ -270,7 +288,7 @@ def classify(chk, r):
                 o['collection_lock_held']:
             viol('fault-free-run-not-clean')
         return found
-    fired = o.get('fired') or kind == 'bad_utf8'
+    fired = o.get('fired') or kind in DATA_KINDS
     if not fired:
         chk.broken.append({'obligation': f'fault injection ({tag})',
                            'why': 'the fault plan did not fire: ' +
@@ -291,6 +309,10 @@ def classify(chk, r):
         else:
             viol(f'run1-hang {tag}')
         return found
+    elif o['run1'] == 'UnicodeDecodeError' and \
+            kind not in ('raise_ude', 'bad_utf8'):
+        # UnicodeDecodeError is for undecodable INPUT under strict decoding
+        viol(f'unicode-error-for-decodable-input {tag}')
     elif o['run1'] not in OK_CLASSES:
         if kind == 'raise' and plan['point'] in SYNC_POINTS and \
                 o['run1'] == 'RuntimeError':
@@ -336,6 +358,10 @@ def coq_case(plan, o):
         k = '(KRaise E_UDE)'
     elif kind in QUEUE_KINDS:
         k = f'(KRaise "{QUEUE_KINDS[kind]}"%string)'
+    elif kind in ('bad_gzip_crc', 'gzip_junk'):
+        k = '(KRaise "OSError"%string)'          # gzip.BadGzipFile
+    elif kind in ('raise_unpicklable', 'raise_local'):
+        k = '(KRaise "Exception"%string)'
     else:
         k = '(KRaise "RuntimeError"%string)'
     if o['run1'] == 'returned':
@@ -391,10 +417,10 @@ def judge(chk, results):
         if o.get('run1_latency') is not None:
             lat.append(o['run1_latency'])
         per_plan[plan['id']] = classify(chk, r)
-        if o.get('fired') or plan['kind'] == 'bad_utf8':
+        if o.get('fired') or plan['kind'] in DATA_KINDS:
             chk.coverage['distinct_nontrivial'] += 1
         if plan['kind'] != 'none' and \
-                (o.get('fired') or plan['kind'] == 'bad_utf8'):
+                (o.get('fired') or plan['kind'] in DATA_KINDS):
             cases.append(coq_case(plan, o))
             wants.append(True)
             idx.append(r)
